@@ -22,13 +22,16 @@ Qed.
 (* the statically predicted structure is exactly the structure of the computed result *)
 Theorem names_sound x : forall e d, deval e x = Ok d -> names_of (senv_of e) x = Ok (sig_of d).
 Proof.
-  induction x as [n|op a IHa b IHb|a IH body|a IH c|a IH defs|a IH l|a IH l|a IH l|a IH l]; simpl; intros e d H.
+  induction x as [n|op a IHa b IHb|op a IHa b IHb|a IH body|a IH c|a IH defs|a IH l|a IH l|a IH l|a IH l]; simpl; intros e d H.
   - rewrite slook_senv_of. destruct (dlook n e); [|discriminate]. injection H as <-. reflexivity.
   - apply bind_ok in H. destruct H as [da [Hda H]]. apply bind_ok in H. destruct H as [db [Hdb H]].
     rewrite (IHa _ _ Hda), (IHb _ _ Hdb). unfold sig_of. simpl.
     destruct (d_binop_names _ _ _ _ H) as [Hm [[Hs [Hi Hms]]|[Hs [Hs2 [Hi Hms]]]]]; rewrite Hm.
     + rewrite Hs, Hi, Hms. reflexivity.
     + rewrite Hs, Hs2, Hi, Hms. reflexivity.
+  - apply bind_ok in H. destruct H as [da [Hda H]]. apply bind_ok in H. destruct H as [db [Hdb H]].
+    rewrite (IHa _ _ Hda), (IHb _ _ Hdb). unfold sig_of. simpl.
+    destruct (d_setop_spec _ _ _ _ H) as [Hc [Hi [Hm _]]]. unfold set_compat in Hc. rewrite Hc, Hi, Hm. reflexivity.
   - apply bind_ok in H. destruct H as [d0 [Hd0 H]]. rewrite (IH _ _ Hd0).
     destruct (d_map_spec _ _ _ H) as [H1 [H2 _]]. unfold sig_of. rewrite H1, H2. reflexivity.
   - apply bind_ok in H. destruct H as [d0 [Hd0 H]]. rewrite (IH _ _ Hd0).
@@ -70,11 +73,20 @@ Proof.
     apply bind_ok in Hf. destruct Hf as [ms [_ Hf]]. injection Hf as <-. exists rb. auto.
 Qed.
 
+Lemma d_setop_keys op a b r x : d_setop op a b = Ok r -> In x (d_rows r) ->
+  In x (d_rows a) \/ exists y, In y (d_rows b) /\ forall v, In v (fst x) -> In v (fst y).
+Proof.
+  intros H Hx. destruct (d_setop_spec _ _ _ _ H) as [_ [_ [_ [rb [Hrb Hr]]]]]. rewrite Hr in Hx.
+  apply set_rows_In in Hx. destruct Hx as [Hx|Hx]; [left; exact Hx | right].
+  destruct (mapM_ok_inv _ _ _ Hrb _ Hx) as [y [Hy Hal]]. exists y. split; [exact Hy|].
+  destruct (align_row_spec _ _ _ _ _ _ Hal) as [_ [P _]]. eapply proj_key_values; eauto.
+Qed.
+
 Theorem keys_never_null_nosub x : no_sub x = true -> forall e d,
   (forall n d0, dlook n e = Some d0 -> keys_ok (d_rows d0)) ->
   deval e x = Ok d -> keys_ok (d_rows d).
 Proof.
-  induction x as [n|op a IHa b IHb|a IH body|a IH c|a IH defs|a IH l|a IH l|a IH l|a IH l]; simpl; intros Hs e d He H;
+  induction x as [n|op a IHa b IHb|op a IHa b IHb|a IH body|a IH c|a IH defs|a IH l|a IH l|a IH l|a IH l]; simpl; intros Hs e d He H;
     try discriminate.
   - destruct (dlook n e) eqn:E; [|discriminate]. injection H as <-. eapply He; eauto.
   - apply andb_true_iff in Hs. destruct Hs as [Hsa Hsb].
@@ -82,6 +94,12 @@ Proof.
     intros r Hr. destruct (d_binop_keys _ _ _ _ _ H Hr) as [y [[Hy|Hy] ->]].
     + eapply IHa; eauto.
     + eapply IHb; eauto.
+  - apply andb_true_iff in Hs. destruct Hs as [Hsa Hsb].
+    apply bind_ok in H. destruct H as [da [Hda H]]. apply bind_ok in H. destruct H as [db [Hdb H]].
+    intros r Hr. destruct (d_setop_keys _ _ _ _ _ H Hr) as [Hy|[y [Hy Hv]]].
+    + eapply IHa; eauto.
+    + apply forallb_forall. intros v Hin. specialize (IHb Hsb e db He Hdb y Hy).
+      rewrite forallb_forall in IHb. apply IHb. apply Hv. exact Hin.
   - apply bind_ok in H. destruct H as [d0 [Hd0 H]]. destruct (d_map_spec _ _ _ H) as [_ [_ F]].
     eapply keys_ok_same_keys; [|eapply IH; eauto].
     clear -F. induction F as [|r r' l l' [Hr _] _ IHF]; simpl; congruence.
